@@ -48,7 +48,7 @@ def jobs(ctx):
         job("enc", G1Classes=S([ANNEX_ENC["ke"], ANNEX_KX["ke"], r[4]]), G2Classes=S([1]), ExpClasses=S([ANNEX_ENC["rC"], ANNEX_ENC["rD"], ANNEX_KX["rB"]]), MaxGT=2)
         job("dec", Mode='"dec"', MaxG1=0, MaxG2=0, MaxGT=0, workers=4)
     else:
-        full = BASE + r[:2]
+        full = BASE + r[:4]
         for k in range(3):
             job("pairs%d" % k, G1Classes=S(full[k::3]), G2Classes=S(full), workers=3)
         allw = wins(range(64), (1, 8, 15))
